@@ -236,10 +236,10 @@ def _pristine_entry(args):
     """Runs in an interpreter of its own (spawned, one task per process): what each kind of call gives
     for one (environment, template, data set, loader version), at every clock value a history can reach,
     before anything else has happened in the process."""
-    e, t_id, d, version, pool, partials = args
+    e, t_id, d, version, pool, partials, only_tick = args
     install_clock()
     out = {}
-    for ticks in range(MAX_TICKS + 1):
+    for ticks in ([only_tick] if only_tick is not None else range(MAX_TICKS + 1)):
         for kind in ("render", "render_async", "from_string", "get_template", "analyze"):
             Clock.now = 1_000_000 + 90_000 * ticks
             cont = {n: v[version - 1] for n, v in partials.items()}
@@ -258,8 +258,10 @@ def pristine_table(pool, partials) -> dict:
     """The reference that shares no process with any history: state that outlives the objects of a render
     (module-level memos, class attributes) cannot hide in it."""
     import multiprocessing as mp
-    jobs = [(e, t_id, d, version, pool, partials) for e in (1, 2) for t_id in range(1, len(pool) + 1) for d in (1, 2) for version in (1, 2)
-            if version == 1 or (e == 1 and pool[t_id - 1]["loads"])]
+    # (a template that shows the clock gets a process per clock value: a memo would carry one value into the next)
+    jobs = [(e, t_id, d, version, pool, partials, tick) for e in (1, 2) for t_id in range(1, len(pool) + 1) for d in (1, 2) for version in (1, 2)
+            if version == 1 or (e == 1 and pool[t_id - 1]["loads"])
+            for tick in (range(MAX_TICKS + 1) if pool[t_id - 1]["clocked"] else [None])]
     table = {}
     with mp.get_context("spawn").Pool(workers(), maxtasksperchild=1) as pl:
         for part in pl.imap_unordered(_pristine_entry, jobs):
